@@ -525,7 +525,8 @@ type c04Case struct {
 	Fault   string `json:"fault"` // kill-hook | term-hook | kill-arrival | kill-complete | term-arrival
 	Point   string `json:"point,omitempty"`
 	N       int    `json:"n"`
-	Second  bool   `json:"second_fault"` // a second SIGKILL during the restarted run
+	Second  bool   `json:"second_fault"`      // a second SIGKILL during the restarted run
+	HoldOn  string `json:"hold_on,omitempty"` // cdx faults: hold the WARC write of the first URL containing this text (instead of the N-th write)
 }
 
 var c04Points = []string{"lq.get.committed", "lq.consumer.beforeInsert", "archiver.beforeDo", "archiver.afterFeedback", "postprocessor.forward",
@@ -536,11 +537,17 @@ func genC04(t *rapid.T) c04Case {
 		Rows:    rapid.IntRange(5, 30).Draw(t, "rows"),
 		Workers: rapid.IntRange(1, 4).Draw(t, "workers"),
 		Assets:  rapid.IntRange(0, 2).Draw(t, "assets"),
-		Fault:   []string{"kill-hook", "kill-hook", "kill-hook", "term-hook", "kill-arrival", "kill-complete", "term-arrival", "term-cdx-kill", "term-cdx-kill"}[rapid.IntRange(0, 8).Draw(t, "fault")],
+		Fault:   []string{"kill-hook", "kill-hook", "kill-hook", "term-hook", "kill-arrival", "kill-complete", "term-arrival", "term-cdx-kill", "term-cdx-kill", "cdx-kill", "cdx-kill"}[rapid.IntRange(0, 10).Draw(t, "fault")],
 		Second:  rapid.IntRange(0, 4).Draw(t, "second") == 0,
 	}
 	c.Point = c04Points[rapid.IntRange(0, len(c04Points)-1).Draw(t, "point")]
 	c.N = rapid.IntRange(1, 12).Draw(t, "n")
+	if c.Fault == "cdx-kill" {
+		c.Assets = 2 // two assets are captured concurrently (--max-concurrent-assets 2); the WARC write of one of them is held back
+		if rapid.Bool().Draw(t, "holdon") {
+			c.HoldOn = fmt.Sprintf("/p%d/a%d.png", rapid.IntRange(0, 2).Draw(t, "holdpage"), rapid.IntRange(0, 1).Draw(t, "holdasset"))
+		}
+	}
 	return c
 }
 
@@ -582,7 +589,7 @@ func lqRows(dbPath string) ([]lqRow, error) {
 }
 
 func c04Args(c c04Case, o *Origin) []string {
-	if c.Fault == "term-cdx-kill" {
+	if c.Fault == "term-cdx-kill" || c.Fault == "cdx-kill" {
 		// the origin also plays a (slow) CDX dedupe server: every WARC write first asks it about the payload
 		return []string{"get", "url", o.URL("/boot"), "--job", "j1", "--workers", "1", "--max-concurrent-assets", "2", "--max-retry", "0",
 			"--min-space-required", "0.001", "--log-level", "debug", "--no-log-file", "--disable-rate-limit", "--disable-seencheck",
@@ -649,8 +656,9 @@ func runC04(t veriflib.TB, c c04Case) (res c04Result) {
 		o.StallK, o.StallPhase = c.N+1, "arrival" // +1: request #1 is usually the boot seed
 	case "kill-complete":
 		o.StallK, o.StallPhase = c.N+1, "complete"
-	case "term-cdx-kill":
+	case "term-cdx-kill", "cdx-kill":
 		o.CDXStallK = c.N%8 + 2
+		o.CDXStallOn = c.HoldOn
 	}
 	ch, err := startChild(dir, c04Args(c, o), env...)
 	if err != nil {
@@ -690,6 +698,26 @@ func runC04(t veriflib.TB, c c04Case) (res c04Result) {
 			<-ch.done
 			close(o.CDXRelease)
 			_ = held
+		case <-ch.done:
+		case <-time.After(40 * time.Second):
+			res.Skipped = "fault moment not reached: killed when idle"
+			ch.cmd.Process.Kill()
+			<-ch.done
+		}
+	case "cdx-kill":
+		// no stop at all: the WARC write of one URL is held back by its CDX lookup while the other captures of the same seed
+		// go through; if the seed's row disappears in the meantime, the process is killed at once (power cut) - otherwise
+		// after six seconds. Whatever is then reported finished must be in the WARC files.
+		select {
+		case <-o.CDXEvent:
+			before, _ := lqRows(dbPath)
+			waitFor(6*time.Second, func() bool {
+				now, err := lqRows(dbPath)
+				return err == nil && len(now) < len(before)
+			})
+			ch.cmd.Process.Kill()
+			<-ch.done
+			close(o.CDXRelease)
 		case <-ch.done:
 		case <-time.After(40 * time.Second):
 			res.Skipped = "fault moment not reached: killed when idle"
@@ -894,7 +922,10 @@ func TestVerif_C04_Proc(t *testing.T) {
 		t.Skip()
 	}
 	// one directed case per shard: the multi-step fault kinds are too rare to rely on random draws in the quick tier
-	if i := veriflib.ShardIndex(); i%2 == 0 {
+	if i := veriflib.ShardIndex(); i%4 == 2 {
+		// hold the write of the first / of the second asset of a page: whichever capture of the pair is started first
+		propC04(t, c04Case{Rows: 6 + i, Workers: 1, Assets: 2, Fault: "cdx-kill", N: i / 2, HoldOn: fmt.Sprintf("/p%d/a%d.png", i%3, (i/4)%2)})
+	} else if i%2 == 0 {
 		propC04(t, c04Case{Rows: 6 + i, Workers: 1, Assets: 1 + i%2, Fault: "term-cdx-kill", N: i / 2})
 	} else {
 		propC04(t, c04Case{Rows: 10 + i, Workers: 1 + i%3, Assets: i % 2, Fault: "term-arrival", N: 2 + i})
